@@ -26,6 +26,13 @@ import (
 // client's data connection
 const passiveAcceptTimeout = 30 * time.Second
 
+// dataIdleTimeout is how long a transfer waits for the peer of its data
+// connection to send or take the next bytes (a TLS handshake it never starts
+// included). The control connection's idle timeout does not cover the data
+// connection: a peer that connects to it and stays silent kept the session's
+// handler in the transfer forever, also after the client had gone.
+const dataIdleTimeout = 30 * time.Second
+
 // A data socket is used to send non-control data between the client and
 // server.
 type DataSocket interface {
@@ -85,10 +92,12 @@ func (socket *ftpActiveSocket) Port() int {
 }
 
 func (socket *ftpActiveSocket) Read(p []byte) (n int, err error) {
+	socket.conn.SetDeadline(time.Now().Add(dataIdleTimeout))
 	return socket.conn.Read(p)
 }
 
 func (socket *ftpActiveSocket) Write(p []byte) (n int, err error) {
+	socket.conn.SetDeadline(time.Now().Add(dataIdleTimeout))
 	return socket.conn.Write(p)
 }
 
@@ -134,6 +143,7 @@ func (socket *ftpPassiveSocket) Read(p []byte) (n int, err error) {
 	if err := socket.waitForOpenSocket(); err != nil {
 		return 0, err
 	}
+	socket.conn.SetDeadline(time.Now().Add(dataIdleTimeout))
 	return socket.conn.Read(p)
 }
 
@@ -141,6 +151,7 @@ func (socket *ftpPassiveSocket) Write(p []byte) (n int, err error) {
 	if err := socket.waitForOpenSocket(); err != nil {
 		return 0, err
 	}
+	socket.conn.SetDeadline(time.Now().Add(dataIdleTimeout))
 	return socket.conn.Write(p)
 }
 
